@@ -58,13 +58,13 @@ theorem mem_swapAt_key (log : List Entry) (a : Nat) (v : Bytes) (e : Entry) (he 
 theorem write_branch {m : VLog} (hi : Inv m) (k : Bytes) (f : Node → Node) (g : Cell → Cell) (log' : List Entry)
     (len' size' : Int) (d : Bool)
     (hf : ∀ n, (f n).key = n.key)
-    (hk : ∀ n, n.key = k → absNode log' (f n) = g (absNode m.log n))
+    (hk : absNode log' (f ((m.findNode k).getD (VLog.freshNode k))) = g (absNode m.log ((m.findNode k).getD (VLog.freshNode k))))
     (hwl : WL log')
     (hother : ∀ k', k' ≠ k → versionsOf k' log' = versionsOf k' m.log)
     (hvk : (f ((m.findNode k).getD (VLog.freshNode k))).vptr = topAddr (versionsOf k log'))
     (hown : ∀ e ∈ log', e.key = k ∨ ∃ n ∈ m.nodes, n.key = e.key)
-    (hdel : (f ((m.findNode k).getD (VLog.freshNode k))).deleted = false)
-    (hlenlog : m.log.length ≤ log'.length)
+    (hdel : (f ((m.findNode k).getD (VLog.freshNode k))).deleted = true → (f ((m.findNode k).getD (VLog.freshNode k))).vptr = 0)
+    (hst : ∀ c ∈ m.stages, c ≤ log'.length)
     (hlen : len' = m.len - Spec.cellCount (absNode m.log ((m.findNode k).getD (VLog.freshNode k)))
               + Spec.cellCount (g (absNode m.log ((m.findNode k).getD (VLog.freshNode k)))))
     (hsize : size' = m.size - Spec.cellSize (absNode m.log ((m.findNode k).getD (VLog.freshNode k)))
@@ -73,14 +73,14 @@ theorem write_branch {m : VLog} (hi : Inv m) (k : Bytes) (f : Node → Node) (g 
     abs m' = { abs m with cells := Spec.upsert (abs m).cells k g, clock := log'.length, dirty := d } ∧ Inv m' := by
   intro m'
   have hcells : (VLog.upsertNode m.nodes k f).map (absNode log') = Spec.upsert (m.nodes.map (absNode m.log)) k g := by
-    apply map_upsert
+    apply map_upsert _ hi.nodup
     · exact fun h => hi.fresh_versions k h
     · exact hk
     · intro n hn
       simp only [absNode]; rw [hother n.key hn]
   have habs : abs m' = { abs m with cells := Spec.upsert (abs m).cells k g, clock := log'.length, dirty := d } := by
     simp only [abs, m', hcells]
-  obtain ⟨s1, s2, s3, s4⟩ := upd_struct hi k f log' hf hother hvk hown (by intro h; rw [hdel] at h; cases h)
+  obtain ⟨s1, s2, s3, s4⟩ := upd_struct hi k f log' hf hother hvk hown hdel
   refine ⟨habs, ⟨hwl, s1, s2, s3, ?_, ?_, s4, ?_, hi.stagesSorted⟩⟩
   · rw [habs]
     simp only [Spec.len]
@@ -96,10 +96,7 @@ theorem write_branch {m : VLog} (hi : Inv m) (k : Bytes) (f : Node → Node) (g 
     simp only [Spec.size] at this
     show size' = _
     rw [hsize, this]
-  · intro c hc
-    have := hi.stagesLe c hc
-    show c ≤ log'.length
-    omega
+  · exact hst
 
 theorem valLen_nil (c : Cell) (h : c.versions = []) : c.valLen = 0 := by simp [Cell.valLen, h]
 
@@ -115,8 +112,8 @@ theorem writeCore_none {m : VLog} (hi : Inv m) (k : Bytes) (ops : List Nat) :
     (fun c => { c with present := true, flags := Spec.writeFlags n0.flags none ops }) m.log
     (if n0.deleted then m.len + 1 else m.len) (if n0.deleted then m.size + (k.length : Int) else m.size)
     (m.dirty || m.stages.isEmpty || KeyFlags.andPersistent (Spec.writeFlags n0.flags none ops) != 0)
-    (fun _ => rfl) (fun n _ => rfl) hi.wl (fun _ _ => rfl) (by rw [hn0]; exact hv)
-    (fun e he => Or.inr (hi.owner e he)) rfl (Nat.le_refl _)
+    (fun _ => rfl) rfl hi.wl (fun _ _ => rfl) (by rw [hn0]; exact hv)
+    (fun e he => Or.inr (hi.owner e he)) (fun h => by cases h) hi.stagesLe
     (by
       rw [hn0]
       cases hd : n0.deleted <;> simp [Spec.cellCount, absNode, hd])
@@ -154,7 +151,7 @@ theorem push_branch {m : VLog} (hi : Inv m) (k x : Bytes) (fl : Nat) (d : Bool) 
     (if n0.deleted then m.len + 1 else m.len)
     ((if n0.deleted then m.size + (k.length : Int) else m.size) + (x.length : Int) - (oldLen : Int)) d
     (fun _ => rfl)
-    (by intro n hn; simp [absNode, versionsOf, hn])
+    (by simp [absNode, versionsOf, hkey])
     (by exact ⟨hv, hi.wl⟩)
     (by intro k' hk'; have hne : ¬ k = k' := fun h => hk' h.symm; simp [versionsOf, hne])
     (by simp [versionsOf, topAddr])
@@ -163,7 +160,7 @@ theorem push_branch {m : VLog} (hi : Inv m) (k x : Bytes) (fl : Nat) (d : Bool) 
       rcases List.mem_cons.mp he with h | h
       · left; rw [h]
       · right; exact hi.owner e h)
-    rfl (by simp)
+    (fun h => by cases h) (fun c hc => by have := hi.stagesLe c hc; simp; omega)
     (by
       show _ = m.len - Spec.cellCount (absNode m.log n0) + _
       cases hd : n0.deleted <;> simp [Spec.cellCount, absNode, hd])
@@ -205,7 +202,9 @@ theorem swap_branch {m : VLog} (hi : Inv m) (k x : Bytes) (fl : Nat) (d : Bool) 
     (VLog.swapAt m.log n0.vptr x)
     (if n0.deleted then m.len + 1 else m.len) (if n0.deleted then m.size + (k.length : Int) else m.size) d
     (fun _ => rfl)
-    (by intro n hn; simp [absNode, hn, hv, versionsOf_swapAt_same k m.log a old x rest hvs])
+    (by
+      have hkey' : ((m.findNode k).getD (VLog.freshNode k)).key = k := hkey
+      simp [absNode, hkey', hv, versionsOf_swapAt_same k m.log a old x rest hvs])
     (by rw [hv]; exact WL_swapAt k m.log a old x rest hvs hi.wl)
     (by intro k' hk'; rw [hv]; exact versionsOf_swapAt_other k k' m.log a old x rest hvs hk')
     (by
@@ -217,7 +216,7 @@ theorem swap_branch {m : VLog} (hi : Inv m) (k x : Bytes) (fl : Nat) (d : Bool) 
       right
       obtain ⟨n, hn, hnk⟩ := hi.owner e' he'
       exact ⟨n, hn, hnk.trans hk⟩)
-    rfl (by rw [swapAt_length]; exact Nat.le_refl _)
+    (fun h => by cases h) (by rw [swapAt_length]; exact hi.stagesLe)
     (by
       show _ = m.len - Spec.cellCount (absNode m.log n0) + _
       simp [Spec.cellCount, absNode, hnd])
